@@ -11,6 +11,7 @@ func init() {
 	verifRegister("VerifC11_ESortView", VerifC11_ESortView)
 	verifRegister("VerifC11_EMap", VerifC11_EMap)
 	verifRegister("VerifC11_EBytes", VerifC11_EBytes)
+	verifRegister("VerifC11_ENew", VerifC11_ENew)
 }
 
 // constructors of the base value a (three symbolic elements e0 e1 e2); several leave spare capacity
@@ -321,4 +322,79 @@ func VerifC11_EBytes() {
 	bb, _ = c11Load(env, "b").Native.(*[]byte)
 	vAssert(bb != nil && int((*bb)[len(*bb)-1]) == x, "append-bytes! does not write into earlier results")
 	vCover("end")
+}
+
+// "Non-mutating (returns a new value)": whatever a non-mutating constructor returns is a value
+// nothing else can write through.  For every constructor (also called with NO extra values, also on
+// EMPTY sources and on a vector with spare capacity) the result is mutated in every way — sorted in
+// place, appended to, keys added and removed — and the source must read exactly as before; then the
+// source is mutated and the result must read exactly as before.
+var c11Ctors = []string{
+	"(append 'vector S)", "(append 'list S)", "(append 'vector S 7)", "(append 'list S 7)",
+	"(concat 'vector S)", "(concat 'list S)", "(concat 'vector S S)", "(concat 'list S '())",
+	"(reverse 'vector S)", "(reverse 'list S)",
+	"(map 'vector (lambda (e) e) S)", "(map 'list (lambda (e) e) S)",
+	"(select 'list (lambda (e) true) S)", "(reject 'vector (lambda (e) false) S)",
+	"(insert-index 'vector S 0 7)", "(insert-index 'list S 0 7)", "(insert-sorted 'list S < 7)",
+	"(zip 'list S S)", "(append 'vector (append 'vector S))", "(concat 'vector (slice 'vector S 0 (length S)))",
+}
+
+var c11Sources = []string{
+	"(vector e0 e1 e2)", "(list e0 e1 e2)", "(vector)", "(list)",
+	"(let ((v (vector e0))) (append! v e1) (append! v e2) v)", // grown in place: spare capacity
+	"(slice 'vector (vector e0 e1 e2 e0) 0 3)",
+}
+
+var c11MapCtors = []string{"(assoc M \"k\" 1)", "(dissoc M \"a\")", "(dissoc M \"zz\")", "(assoc M 'a 2)"}
+var c11MapSources = []string{"(sorted-map)", "(sorted-map \"a\" e0)", "(let ((m (sorted-map \"a\" 1))) (dissoc! m \"a\") m)"}
+
+func VerifC11_ENew() {
+	env := newEnv(nil)
+	for _, n := range []string{"e0", "e1", "e2"} {
+		env.PutGlobal(lisp.Symbol(n), lisp.Int(vndInt(n)))
+	}
+	if vndBool("maps") {
+		ci := vConcInt(vndChoice("mctor", len(c11MapCtors)))
+		si := vConcInt(vndChoice("msrc", len(c11MapSources)))
+		r := c11Load(env, "(set 'M "+c11MapSources[si]+") (set 'R "+c11MapCtors[ci]+")")
+		vAssert(r.Type != lisp.LError, "map constructor succeeds: "+outcome(r))
+		vObserve("ctor", c11MapCtors[ci]+" on "+c11MapSources[si])
+		m0 := c11Show(env, "(to-string (list (keys M) (length M)))")
+		c11Load(env, "(assoc! R \"n\" 5) (assoc! R \"a\" 9) (dissoc! R \"k\")")
+		vAssert(c11Show(env, "(to-string (list (keys M) (length M)))") == m0, "mutating the result of assoc / dissoc never changes the map it was made from")
+		vAssert(c11Show(env, "(get M \"a\")") != "9" || c11MapSources[si] != "(sorted-map)", "an empty source stays empty")
+		r0 := c11Show(env, "(to-string (list (keys R) (length R)))")
+		c11Load(env, "(assoc! M \"m\" 6) (dissoc! M \"n\")")
+		vAssert(c11Show(env, "(to-string (list (keys R) (length R)))") == r0, "nor does mutating the source change the result")
+		vCover("maps")
+		return
+	}
+	ci := vConcInt(vndChoice("ctor", len(c11Ctors)))
+	si := vConcInt(vndChoice("src", len(c11Sources)))
+	r := c11Load(env, "(set 'S "+c11Sources[si]+") (set 'R "+c11Ctors[ci]+")")
+	vObserve("ctor", c11Ctors[ci]+" on "+c11Sources[si])
+	if r.Type == lisp.LError {
+		vCover("refused") // e.g. insert-sorted with a key order the elements do not have: no value, nothing to alias
+		return
+	}
+	show := func(name string) string {
+		return c11Show(env, "(list (length "+name+") (if (> (length "+name+") 0) (nth "+name+" 0) 'none) (if (> (length "+name+") 1) (nth "+name+" 1) 'none) (if (> (length "+name+") 2) (nth "+name+" 2) 'none))")
+	}
+	s0 := show("S")
+	mut := vConcInt(vndChoice("mutation", 3))
+	switch mut {
+	case 0:
+		c11Load(env, "(stable-sort (lambda (a b) (> (to-string a) (to-string b))) R)")
+		c11Load(env, "(stable-sort (lambda (a b) (< (to-string a) (to-string b))) R)")
+	case 1:
+		c11Load(env, "(if (vector? R) (append! R 99) ())")
+	case 2:
+		c11Load(env, "(if (and (vector? R) (> (length R) 0)) (progn (stable-sort (lambda (a b) true) R) (append! R 98)) ())")
+	}
+	vAssert(show("S") == s0, "mutating the value a non-mutating constructor returned never changes its source")
+	r0 := show("R")
+	c11Load(env, "(if (vector? S) (append! S 77) ())")
+	c11Load(env, "(stable-sort (lambda (a b) (> (to-string a) (to-string b))) S)")
+	vAssert(show("R") == r0, "nor does mutating the source change the value that was returned")
+	vCover("seqs")
 }
